@@ -488,6 +488,18 @@ def lex_stage(ck: Check, prop_file: str, sizes_quick: Any = 1, sizes_thorough: A
         cur = ck.coverage["tie"].get("gen_files")
         ck.coverage["tie"]["gen_files"] = sorted(set(prev_gen) | set(cur or [])) if isinstance(prev_gen, list) and isinstance(cur, list) else "all"
     t_proof = time.time() - t0
+    # when the CURRENT lexer.py cannot be translated, the model must be the last ACCEPTED translation (coq/ref),
+    # not whatever an earlier run left in coq/gen
+    try:
+        import translate_lexer
+        translate_lexer.gen_lexer()
+    except Broken:
+        import shutil
+        ref = os.path.join(vlib.COQ, "ref", "GenLexer.v")
+        if os.path.exists(ref):
+            shutil.copy(ref, os.path.join(vlib.COQ, "gen", "GenLexer.v"))
+            ck.coverage["tie"]["lexer_model_from_reference_translation"] = True
+            lex_model_ok = True
     if lex_model_ok:
         ok, log = coq_build(list(MODEL_VO))
         if not ok:
